@@ -72,6 +72,12 @@ fn run_once(bytes: &[u8], f: Filter, dest: Dest, stdin: bool, want_stats: bool) 
     let mut run = Run::new(&args).cwd(&scratch.path);
     if stdin {
         run = run.stdin(bytes);
+        // a slow producer for every other stdin run (short reads in the tool)
+        match (bytes.len() / 16 + args.len()) % 4 {
+            1 => run = run.stdin_chunk(61),
+            3 => run = run.stdin_chunk(1000),
+            _ => {}
+        }
     }
     let res = run.run();
     if res.crashed() || res.status != Some(0) {
